@@ -44,7 +44,7 @@ def cells(tier, seed):
 
 
 def explore_opts(params, tier):
-    return {"timeout_s": 2.0 if tier == "quick" else 60.0, "max_paths": 8, "norm_first": True, "path_budget_s": 90.0,
+    return {"timeout_s": 2.0 if tier == "quick" else 15.0, "max_paths": 8, "norm_first": True, "path_budget_s": 90.0,
             "engine_opts": {"cut_sites": ("lanczos_tridiag",) if params["group"] == "lanczos_root" else ()}}
 
 
